@@ -41,7 +41,9 @@ func sparkFunction(c *cli.Context) error {
 	helpers.RunAggregationLoop(ext, counter, func() {
 
 		// Trim unused data from the data store (keep memory tidy!)
-		if !noTruncate {
+		// Only when columns are ranked by name: a column ranked by its running total can move
+		// back into view later, and trimming it would lose the counts it had so far
+		if !noTruncate && !helpers.SortsByValue(sortCols) {
 			if keepCols := counter.OrderedColumns(colSorter); len(keepCols) > numCols {
 				keepCols = keepCols[len(keepCols)-numCols:]
 				keepLookup := make(map[string]struct{})
